@@ -7,7 +7,7 @@ mkdir -p .build work replays evidence
 python3 tools/translate.py
 (cd lean/SccacheModel && lake build SccacheModel modeld 2>&1 | grep -v '^ℹ\|^✔\|^info:' | tail -5)
 cp /repo/Cargo.lock harness/Cargo.lock
-(cd harness && cargo build --offline --bins 2>&1 | tail -2)
+(cd harness && env -u CARGO_TARGET_DIR -u CARGO_BUILD_TARGET_DIR cargo build --offline --target-dir /verif/.build/target --bins 2>&1 | tail -2)
 (cd /repo && CARGO_PROFILE_DEV_DEBUG=0 RUSTFLAGS="--cfg sccache_verif" cargo build --offline --target-dir /verif/.build/target-repo \
    --no-default-features --features dist-client,dist-server --bin sccache --bin sccache-dist 2>&1 | tail -2)
 echo setup done
